@@ -160,7 +160,19 @@ def run_masking(case, ctx):
     ctx.check(same_loss, f"{site}/loss_depends_on_next_obs_of_done_rows",
               "changing next_obs only on rows with done=1 changed the loss", loss=repr(l1)[:200], loss_perturbed=repr(l2)[:200],
               dones=dones, mode=mode)
-    d = T.diff(T.snapshot(A1), T.snapshot(A2), sections=("tensors",), atol=1e-5 if algo == "Rainbow" else 0.0)
+    if algo == "Rainbow":
+        # The projection's rounding makes the two losses differ in the last bits; Adam turns bit-level gradient differences of
+        # near-zero gradients into O(lr) weight differences, so post-step weights are not comparable. Compare the gradients
+        # that the step used (still stored on the parameters) with a tolerance relative to the largest gradient.
+        d = []
+        g1 = {k: p.grad for k, p in A1.actor.named_parameters() if p.grad is not None}
+        g2 = {k: p.grad for k, p in A2.actor.named_parameters() if p.grad is not None}
+        scale = max([float(g.abs().max()) for g in g1.values()] + [1e-6])
+        for k in g1:
+            if k not in g2 or float((g1[k] - g2[k]).abs().max()) > 1e-4 * scale + 1e-8:
+                d.append(f"gradient.actor.{k}: max|d|={float((g1[k] - g2[k]).abs().max()) if k in g2 else float('nan'):.3g} (scale {scale:.3g})")
+    else:
+        d = T.diff(T.snapshot(A1), T.snapshot(A2), sections=("tensors",))
     if d:
         ctx.fail(f"{site}/update_depends_on_next_obs_of_done_rows",
                  f"changing next_obs only on rows with done=1 changed the update: {d[0]}", diffs=d[:4], dones=dones, mode=mode)
